@@ -60,7 +60,7 @@ type workload struct {
 }
 
 type scriptOp struct {
-	Op      string `json:"op"`   // send | partial | eof | finish
+	Op      string `json:"op"`   // send | partial | eof | finish | cancel | hold_reader | release_reader
 	Kind    string `json:"kind"` // ws | sig | cd | bad | junk
 	Run     string `json:"run"`
 	Beh     string `json:"beh"`     // ok | err | panic | baddata | declared_error
@@ -1131,6 +1131,11 @@ func (w *world) serverSession(res *result) {
 			w.s.Emit(g, "e.eof", map[string]any{})
 			w.c2s.CloseWrite()
 			ended = true
+		case "cancel":
+			// the server's context is cancelled (what a SIGTERM does to a plugin process)
+			w.s.Emit(g, "e.cancel", map[string]any{})
+			w.cancel()
+			w.s.WaitSettled(stepTimeout)
 		case "hold_reader":
 			w.mu.Lock()
 			if readerPaused == nil {
